@@ -19,8 +19,23 @@ package main
 // Go default. The compiled Lean driver predicts the same line from the model and evaluates the Spec on it.
 //
 // kind=canon cases compare textproto.CanonicalMIMEHeaderKey with the model function directly.
+//
+// Further dimensions of a case (all optional in the input line, defaults in brackets):
+//   gun=http|http2|connect [http]   the registered gun plugin; http2 needs ssl (its factory refuses otherwise) and is
+//                                    served by an HTTP/2 target; connect is served by a target that first answers the
+//                                    gun's CONNECT request and then serves the tunnelled connection (tun=ok|bad:<authority>)
+//   pre=0|1 [0]                      provider option preload
+//   rsp=<n>|redir [2]                the target answers with an n-byte body, or with a 302 to a decoy server that counts
+//                                    what reaches it (decoy=<hits>; the guns do not follow redirects by default)
+//   sched=<i.j.k…> [round-robin]     which gun shoots the j-th acquired ammo (cyclic)
+//   mode=seq|par [seq]               seq: one shot at a time in ammo order (arrival order is deterministic);
+//                                    par: every gun shoots its share in its own goroutine, the recorded requests are
+//                                    reported sorted (the model sorts its prediction alike)
+//   6th field of an entry            minor version of the request line of a raw entry (HTTP/1.<minor>) [1]
+// uri/uripost entries with an odd index carry a tag after the URI (it never reaches the wire).
 
 import (
+	"bufio"
 	"bytes"
 	"context"
 	"encoding/hex"
@@ -85,6 +100,7 @@ type entry struct {
 	method, uri, host string
 	hdrs              []hdrLine
 	body              string
+	minor             int // raw: HTTP/1.<minor>
 }
 
 type caseIn struct {
@@ -97,6 +113,12 @@ type caseIn struct {
 	passes int
 	conf   []string
 	ents   []entry
+
+	gun     string // http | http2 | connect
+	preload bool
+	rsp     string // response body size, or "redir"
+	mode    string // seq | par
+	sched   []int
 }
 
 func hx(s string) string { return hex.EncodeToString([]byte(s)) }
@@ -111,7 +133,7 @@ func encodeEntry(e entry) string {
 	for i, h := range e.hdrs {
 		hs[i] = hx(h.k) + ":" + hx(h.v)
 	}
-	return strings.Join([]string{hx(e.method), hx(e.uri), hx(e.host), strings.Join(hs, ";"), hx(e.body)}, ",")
+	return strings.Join([]string{hx(e.method), hx(e.uri), hx(e.host), strings.Join(hs, ";"), hx(e.body), strconv.Itoa(e.minor)}, ",")
 }
 
 func encodeCase(c caseIn) string {
@@ -129,8 +151,23 @@ func encodeCase(c caseIn) string {
 	for i, e := range c.ents {
 		es[i] = encodeEntry(e)
 	}
-	return fmt.Sprintf("kind=run fmt=%s ssl=%s srv=%s ka=%s inst=%d tgt=%s passes=%d conf=%s ents=%s",
-		c.format, b(c.ssl), c.srv, b(c.ka), c.inst, c.tgt, c.passes, strings.Join(cs, ";"), strings.Join(es, "|"))
+	sc := make([]string, len(c.sched))
+	for i, g := range c.sched {
+		sc[i] = strconv.Itoa(g)
+	}
+	gun, rsp, mode := c.gun, c.rsp, c.mode
+	if gun == "" {
+		gun = "http"
+	}
+	if rsp == "" {
+		rsp = "2"
+	}
+	if mode == "" {
+		mode = "seq"
+	}
+	return fmt.Sprintf("kind=run gun=%s fmt=%s ssl=%s srv=%s ka=%s inst=%d tgt=%s passes=%d pre=%s rsp=%s mode=%s sched=%s conf=%s ents=%s",
+		gun, c.format, b(c.ssl), c.srv, b(c.ka), c.inst, c.tgt, c.passes, b(c.preload), rsp, mode, strings.Join(sc, "."),
+		strings.Join(cs, ";"), strings.Join(es, "|"))
 }
 
 func splitList(s, sep string) []string {
@@ -149,6 +186,24 @@ func parseCase(input string) (c caseIn, err error) {
 	c.inst, _ = strconv.Atoi(m["inst"])
 	c.tgt = m["tgt"]
 	c.passes, _ = strconv.Atoi(m["passes"])
+	c.gun, c.rsp, c.mode = m["gun"], m["rsp"], m["mode"]
+	if c.gun == "" {
+		c.gun = "http"
+	}
+	if c.rsp == "" {
+		c.rsp = "2"
+	}
+	if c.mode == "" {
+		c.mode = "seq"
+	}
+	c.preload = m["pre"] == "1"
+	for _, g := range splitList(m["sched"], ".") {
+		n, e := strconv.Atoi(g)
+		if e != nil || n < 0 {
+			return c, fmt.Errorf("sched")
+		}
+		c.sched = append(c.sched, n)
+	}
 	for _, h := range splitList(m["conf"], ";") {
 		s, e := unhx(h)
 		if e != nil {
@@ -158,10 +213,17 @@ func parseCase(input string) (c caseIn, err error) {
 	}
 	for _, es := range splitList(m["ents"], "|") {
 		f := strings.Split(es, ",")
-		if len(f) != 5 {
+		if len(f) != 5 && len(f) != 6 {
 			return c, fmt.Errorf("entry fields")
 		}
 		var e entry
+		e.minor = 1
+		if len(f) == 6 {
+			if f[5] != "0" && f[5] != "1" {
+				return c, fmt.Errorf("minor")
+			}
+			e.minor, _ = strconv.Atoi(f[5])
+		}
 		if e.method, err = unhx(f[0]); err != nil {
 			return
 		}
@@ -206,6 +268,24 @@ func parseCase(input string) (c caseIn, err error) {
 	if c.srv != "plain" && c.srv != "tls" {
 		return c, fmt.Errorf("srv")
 	}
+	switch c.gun {
+	case "http", "http2", "connect":
+	default:
+		return c, fmt.Errorf("gun")
+	}
+	if c.mode != "seq" && c.mode != "par" {
+		return c, fmt.Errorf("mode")
+	}
+	if c.rsp != "redir" {
+		if n, e := strconv.Atoi(c.rsp); e != nil || n < 0 || n > 1<<20 {
+			return c, fmt.Errorf("rsp")
+		}
+	}
+	for _, g := range c.sched {
+		if g >= c.inst {
+			return c, fmt.Errorf("sched")
+		}
+	}
 	return c, nil
 }
 
@@ -216,23 +296,31 @@ func jsonStr(s string) string {
 	return string(b)
 }
 
+// tagOf: uri/uripost entries with an odd index carry a tag
+func tagOf(i int) string {
+	if i%2 == 1 {
+		return " tag" + strconv.Itoa(i)
+	}
+	return ""
+}
+
 // render returns the ammo file and whether the entries can be expressed in the format at all.
 func render(c caseIn) ([]byte, bool) {
 	var b bytes.Buffer
 	switch c.format {
 	case "uri":
-		for _, e := range c.ents {
+		for i, e := range c.ents {
 			for _, h := range e.hdrs {
 				fmt.Fprintf(&b, "[%s:%s]\n", h.k, h.v)
 			}
-			b.WriteString(e.uri + "\n")
+			b.WriteString(e.uri + tagOf(i) + "\n")
 		}
 	case "uripost":
-		for _, e := range c.ents {
+		for i, e := range c.ents {
 			for _, h := range e.hdrs {
 				fmt.Fprintf(&b, "[%s:%s]\n", h.k, h.v)
 			}
-			fmt.Fprintf(&b, "%d %s\n", len(e.body), e.uri)
+			fmt.Fprintf(&b, "%d %s%s\n", len(e.body), e.uri, tagOf(i))
 			b.WriteString(e.body)
 			b.WriteString("\n")
 		}
@@ -260,7 +348,7 @@ func render(c caseIn) ([]byte, bool) {
 	case "raw":
 		for _, e := range c.ents {
 			var r bytes.Buffer
-			fmt.Fprintf(&r, "%s %s HTTP/1.1\r\n", e.method, e.uri)
+			fmt.Fprintf(&r, "%s %s HTTP/1.%d\r\n", e.method, e.uri, e.minor)
 			for _, h := range e.hdrs {
 				fmt.Fprintf(&r, "%s: %s\r\n", h.k, h.v)
 			}
@@ -282,32 +370,113 @@ func render(c caseIn) ([]byte, bool) {
 type recorded struct {
 	method, uri, host string
 	tls               bool
+	major             int
 	header            http.Header
 	body              []byte
 	conn              int64
 }
 
 type target struct {
-	srv   *httptest.Server
-	mu    sync.Mutex
-	reqs  []recorded
-	seq   atomic.Int64
-	close func()
+	srv     *httptest.Server
+	mu      sync.Mutex
+	reqs    []recorded
+	tunnels []string // authorities of the CONNECT requests answered (connect gun)
+	seq     atomic.Int64
+	decoy   *httptest.Server
+	decoyN  atomic.Int64
 }
 
 type connKey struct{}
 
-func newTarget(useTLS bool, v6 bool) (*target, error) {
+// connectListener answers the connect gun's `CONNECT <authority>` on every accepted connection and hands the
+// tunnelled connection to the HTTP server (under TLS when the case says so).
+type connectListener struct {
+	net.Listener
+	ch   chan net.Conn
+	done chan struct{}
+	once sync.Once
+	t    *target
+}
+
+func (l *connectListener) loop() {
+	for {
+		c, err := l.Listener.Accept()
+		if err != nil {
+			return
+		}
+		go l.handshake(c)
+	}
+}
+
+func (l *connectListener) handshake(c net.Conn) {
+	_ = c.SetDeadline(time.Now().Add(10 * time.Second))
+	br := bufio.NewReader(c)
+	if _, err := br.Peek(1); err != nil {
+		_ = c.Close() // closed without a byte: the factory's reachability probe of a named target
+		return
+	}
+	req, err := http.ReadRequest(br)
+	if err != nil || req.Method != "CONNECT" || br.Buffered() != 0 {
+		l.t.mu.Lock()
+		l.t.tunnels = append(l.t.tunnels, "!not-a-connect")
+		l.t.mu.Unlock()
+		_ = c.Close()
+		return
+	}
+	l.t.mu.Lock()
+	l.t.tunnels = append(l.t.tunnels, req.RequestURI)
+	l.t.mu.Unlock()
+	if _, err := io.WriteString(c, "HTTP/1.1 200 OK\r\n\r\n"); err != nil {
+		_ = c.Close()
+		return
+	}
+	_ = c.SetDeadline(time.Time{})
+	select {
+	case l.ch <- c:
+	case <-l.done:
+		_ = c.Close()
+	}
+}
+
+func (l *connectListener) Accept() (net.Conn, error) {
+	select {
+	case c := <-l.ch:
+		return c, nil
+	case <-l.done:
+		return nil, net.ErrClosed
+	}
+}
+
+func (l *connectListener) Close() error {
+	l.once.Do(func() { close(l.done) })
+	return l.Listener.Close()
+}
+
+func newTarget(c caseIn) (*target, error) {
 	t := &target{}
+	useTLS, v6 := c.srv == "tls", c.tgt == "::1"
+	rspN := 0
+	if c.rsp == "redir" {
+		t.decoy = httptest.NewServer(http.HandlerFunc(func(w http.ResponseWriter, r *http.Request) {
+			t.decoyN.Add(1)
+		}))
+	} else {
+		rspN, _ = strconv.Atoi(c.rsp)
+	}
+	rspBody := bytes.Repeat([]byte("r"), rspN)
 	h := http.HandlerFunc(func(w http.ResponseWriter, r *http.Request) {
 		body, _ := io.ReadAll(r.Body)
 		id, _ := r.Context().Value(connKey{}).(int64)
 		t.mu.Lock()
 		t.reqs = append(t.reqs, recorded{method: r.Method, uri: r.RequestURI, host: r.Host, tls: r.TLS != nil,
-			header: r.Header.Clone(), body: body, conn: id})
+			major: r.ProtoMajor, header: r.Header.Clone(), body: body, conn: id})
 		t.mu.Unlock()
+		if t.decoy != nil {
+			http.Redirect(w, r, t.decoy.URL+"/decoy", http.StatusFound)
+			return
+		}
 		w.Header().Set("Content-Type", "text/plain")
-		_, _ = w.Write([]byte("ok"))
+		_, _ = w.Write(rspBody)
 	})
 	srv := httptest.NewUnstartedServer(h)
 	if v6 {
@@ -318,6 +487,12 @@ func newTarget(useTLS bool, v6 bool) (*target, error) {
 		_ = srv.Listener.Close()
 		srv.Listener = l
 	}
+	if c.gun == "connect" {
+		cl := &connectListener{Listener: srv.Listener, ch: make(chan net.Conn), done: make(chan struct{}), t: t}
+		go cl.loop()
+		srv.Listener = cl
+	}
+	srv.EnableHTTP2 = c.gun == "http2"
 	srv.Config.ErrorLog = log.New(io.Discard, "", 0)
 	srv.Config.ConnContext = func(ctx context.Context, c net.Conn) context.Context {
 		return context.WithValue(ctx, connKey{}, t.seq.Add(1))
@@ -329,6 +504,13 @@ func newTarget(useTLS bool, v6 bool) (*target, error) {
 	}
 	t.srv = srv
 	return t, nil
+}
+
+func (t *target) Close() {
+	t.srv.Close()
+	if t.decoy != nil {
+		t.decoy.Close()
+	}
 }
 
 type nullAggregator struct{}
@@ -356,11 +538,11 @@ func runCase(input string) string {
 	if !ok {
 		return "BAD-INPUT not-expressible"
 	}
-	tg, err := newTarget(c.srv == "tls", c.tgt == "::1")
+	tg, err := newTarget(c)
 	if err != nil {
 		return "ENV listen"
 	}
-	defer tg.srv.Close()
+	defer tg.Close()
 	_, port, _ := net.SplitHostPort(tg.srv.Listener.Addr().String())
 	targetAddr := net.JoinHostPort(c.tgt, port)
 
@@ -376,7 +558,10 @@ func runCase(input string) string {
 		headers[i] = h
 	}
 	ammoCfg := map[string]any{"type": ammoType, "file": path, "headers": headers, "passes": c.passes}
-	gunCfg := map[string]any{"type": "http", "target": targetAddr, "ssl": c.ssl}
+	if c.preload {
+		ammoCfg["preload"] = true
+	}
+	gunCfg := map[string]any{"type": c.gun, "target": targetAddr, "ssl": c.ssl}
 	if !c.ka {
 		gunCfg["disable-keep-alives"] = true
 	}
@@ -408,18 +593,63 @@ func runCase(input string) string {
 		}
 		guns[i] = g
 	}
+	gunOf := func(j int) int {
+		if len(c.sched) == 0 {
+			return j % c.inst
+		}
+		return c.sched[j%len(c.sched)]
+	}
 	shots := 0
-	for {
-		a, ok := pool.Provider.Acquire()
-		if !ok {
-			break
+	gunPanic := ""
+	if c.mode == "seq" {
+		for {
+			a, ok := pool.Provider.Acquire()
+			if !ok {
+				break
+			}
+			guns[gunOf(shots)].Shoot(a)
+			pool.Provider.Release(a)
+			shots++
+			if shots > 64 {
+				break
+			}
 		}
-		guns[shots%c.inst].Shoot(a)
-		pool.Provider.Release(a)
-		shots++
-		if shots > 64 {
-			break
+	} else {
+		share := make([][]core.Ammo, c.inst)
+		for {
+			a, ok := pool.Provider.Acquire()
+			if !ok {
+				break
+			}
+			share[gunOf(shots)] = append(share[gunOf(shots)], a)
+			shots++
+			if shots > 64 {
+				break
+			}
 		}
+		var wg sync.WaitGroup
+		var pmu sync.Mutex
+		for i := range guns {
+			wg.Add(1)
+			go func(i int) {
+				defer wg.Done()
+				defer func() {
+					if r := recover(); r != nil {
+						pmu.Lock()
+						gunPanic = drv.Clean(fmt.Sprint(r))
+						pmu.Unlock()
+					}
+				}()
+				for _, a := range share[i] {
+					guns[i].Shoot(a)
+					pool.Provider.Release(a)
+				}
+			}(i)
+		}
+		wg.Wait()
+	}
+	if gunPanic != "" {
+		return "PANIC in gun goroutine: " + drv.Trunc(gunPanic, 200)
 	}
 	cancel()
 	run := "ok"
@@ -439,9 +669,14 @@ func runCase(input string) string {
 
 	tg.mu.Lock()
 	reqs := append([]recorded(nil), tg.reqs...)
+	tunnels := append([]string(nil), tg.tunnels...)
 	tg.mu.Unlock()
 	conns := map[int64]bool{}
 	rs := make([]string, len(reqs))
+	defaultUA := "Go-http-client/1.1"
+	if c.gun == "http2" {
+		defaultUA = "Go-http-client/2.0"
+	}
 	for i, r := range reqs {
 		conns[r.conn] = true
 		host := strings.ReplaceAll(r.host, targetAddr, "TARGETADDR")
@@ -450,7 +685,7 @@ func runCase(input string) string {
 			if dropAlways[k] {
 				continue
 			}
-			if k == "User-Agent" && len(vv) == 1 && vv[0] == "Go-http-client/1.1" {
+			if k == "User-Agent" && len(vv) == 1 && vv[0] == defaultUA {
 				continue
 			}
 			names = append(names, k)
@@ -468,9 +703,28 @@ func runCase(input string) string {
 		if r.tls {
 			t = "1"
 		}
-		rs[i] = strings.Join([]string{hx(r.method), hx(r.uri), hx(host), t, strings.Join(hs, ";"), hex.EncodeToString(r.body)}, ",")
+		rs[i] = strings.Join([]string{hx(r.method), hx(r.uri), hx(host), t, strings.Join(hs, ";"), hex.EncodeToString(r.body), strconv.Itoa(r.major)}, ",")
 	}
-	return fmt.Sprintf("n=%d shots=%d conns=%d run=%s reqs=%s", len(reqs), shots, len(conns), run, strings.Join(rs, "|"))
+	if c.mode == "par" {
+		sort.Strings(rs)
+	}
+	// the CONNECT authority must be the gun's (resolved) target
+	tun := "-"
+	if c.gun == "connect" {
+		tun = "ok"
+		if len(tunnels) == 0 && len(reqs) > 0 {
+			tun = "bad:none"
+		}
+		for _, a := range tunnels {
+			h, p, err := net.SplitHostPort(a)
+			okHost := h == c.tgt || (c.tgt == "localhost" && (h == "127.0.0.1" || h == "::1"))
+			if err != nil || p != port || !okHost {
+				tun = "bad:" + hx(a)
+			}
+		}
+	}
+	return fmt.Sprintf("n=%d shots=%d conns=%d run=%s tun=%s decoy=%d reqs=%s", len(reqs), shots, len(conns), run, tun,
+		tg.decoyN.Load(), strings.Join(rs, "|"))
 }
 
 func c09Run(input string) string {
@@ -531,7 +785,16 @@ var hostWords = []string{"ammo.example.org", "decoy.invalid:81", "h2.example.org
 var pathWords = []string{"/", "/a", "/a/b/c", "/p?x=1&y=2", "/%41bc", "/a.b-c_d~e", "/q?", "/x/?k=v%20w", "/very/long/" + strings.Repeat("p", 200),
 	"/a;b=c", "/a:b@c", "/search?q=a+b&r=%2F", "/*", "/index.html?"}
 
+// network-path references: `//authority/path` — url.Parse (uri, uripost) takes the authority as Host, ParseRequestURI (raw)
+// and the "http://"+host+uri of http/json keep everything as path
+var netPathWords = []string{"//decoy.invalid/x", "//double/slash?x=1", "//h2.example.org:8080", "///triple/slash", "//"}
+
+var connWords = []string{"close", "keep-alive", "Close", "Keep-Alive", "CLOSE"}
+
 func genURI(r *rand.Rand, allowAbs bool) string {
+	if r.Intn(14) == 0 {
+		return netPathWords[r.Intn(len(netPathWords))]
+	}
 	p := pathWords[r.Intn(len(pathWords))]
 	if allowAbs && r.Intn(4) == 0 {
 		scheme := []string{"http://", "https://"}[r.Intn(2)]
@@ -599,7 +862,31 @@ func genCase(r *rand.Rand, malformed bool) caseIn {
 		c.srv = map[bool]string{true: "plain", false: "tls"}[c.ssl]
 	}
 	c.ka = r.Intn(3) != 0
-	c.inst = 1 + r.Intn(3)
+	c.inst = 1 + r.Intn(4)
+	switch r.Intn(10) {
+	case 0, 1:
+		c.gun = "connect"
+	case 2, 3:
+		c.gun = "http2"
+		if r.Intn(8) != 0 { // the http2 gun needs ssl; now and then ask for it without
+			c.ssl = true
+			c.srv = "tls"
+		}
+	default:
+		c.gun = "http"
+	}
+	c.preload = r.Intn(8) == 0
+	c.rsp = []string{"0", "2", "2", "700", "5000", "5000", "70000", "redir"}[r.Intn(8)]
+	c.mode = "seq"
+	if c.inst > 1 && r.Intn(5) == 0 {
+		c.mode = "par"
+	}
+	if r.Intn(3) == 0 {
+		n := 1 + r.Intn(6)
+		for i := 0; i < n; i++ {
+			c.sched = append(c.sched, r.Intn(c.inst))
+		}
+	}
 	switch r.Intn(6) {
 	case 0:
 		c.tgt = "localhost"
@@ -624,6 +911,8 @@ func genCase(r *rand.Rand, malformed bool) caseIn {
 		switch {
 		case r.Intn(4) == 0:
 			name = caseVariant(r, "Host")
+		case c.gun != "http2" && r.Intn(16) == 0:
+			name = caseVariant(r, "Connection")
 		case len(confNames) > 0 && r.Intn(4) == 0:
 			name = caseVariant(r, confNames[r.Intn(len(confNames))]) // duplicate inside the option list
 		default:
@@ -636,6 +925,9 @@ func genCase(r *rand.Rand, malformed bool) caseIn {
 		}
 		if strings.EqualFold(name, "user-agent") && val == "" {
 			val = "conf-agent"
+		}
+		if strings.EqualFold(strings.TrimSpace(name), "connection") {
+			val = connWords[r.Intn(len(connWords))]
 		}
 		s := "[" + pad(r, name) + ":" + pad(r, val) + "]"
 		if malformed && r.Intn(6) == 0 {
@@ -653,6 +945,13 @@ func genCase(r *rand.Rand, malformed bool) caseIn {
 			e.method = "POST"
 		default:
 			e.method = methods[r.Intn(len(methods))]
+			if isJSON && r.Intn(12) == 0 {
+				e.method = "" // http.NewRequest: GET
+			}
+		}
+		e.minor = 1
+		if c.format == "raw" && r.Intn(3) == 0 {
+			e.minor = 0
 		}
 		e.uri = genURI(r, !isJSON)
 		if isJSON && r.Intn(2) == 0 {
@@ -668,6 +967,8 @@ func genCase(r *rand.Rand, malformed bool) caseIn {
 			switch {
 			case r.Intn(5) == 0:
 				name = caseVariant(r, "Host")
+			case c.gun != "http2" && r.Intn(14) == 0:
+				name = caseVariant(r, "Connection")
 			case len(confNames) > 0 && r.Intn(2) == 0:
 				name = caseVariant(r, strings.TrimSpace(confNames[r.Intn(len(confNames))])) // collide with the option
 			default:
@@ -690,6 +991,9 @@ func genCase(r *rand.Rand, malformed bool) caseIn {
 			}
 			if ck == "User-Agent" && val == "" {
 				val = "file-agent"
+			}
+			if ck == "Connection" {
+				val = connWords[r.Intn(len(connWords))]
 			}
 			switch c.format {
 			case "uri", "uripost":
@@ -740,12 +1044,22 @@ func matrix() []string {
 					}
 					c := caseIn{format: f, ssl: ssl, ka: ka, inst: 2, tgt: "127.0.0.1", passes: 1, conf: cb.conf}
 					c.srv = map[bool]string{true: "tls", false: "plain"}[ssl]
+					c.gun = []string{"http", "connect", "http2"}[(ci+len(out))%3]
+					if ci <= 2 {
+						c.gun = "http"
+					}
+					if ci == 9 && c.gun == "http2" {
+						c.gun = "connect"
+					}
+					if c.gun != "http" && len(out)%2 == 0 {
+						c.tgt = "localhost" // named target: pre-resolve, Host defaults to the NAME
+					}
 					method, body := "GET", ""
 					if f != "uri" {
 						method, body = "POST", "class"
 					}
 					for i := 0; i < 3; i++ {
-						e := entry{method: method, uri: "/" + strconv.Itoa(i) + "?q=" + f, body: body}
+						e := entry{method: method, uri: "/" + strconv.Itoa(i) + "?q=" + f, body: body, minor: (i + ci) % 2}
 						if i > 0 || f == "uri" || f == "uripost" {
 							e.hdrs = cb.file
 						}
@@ -790,11 +1104,117 @@ func genCanonKey(r *rand.Rand) string {
 	return s
 }
 
+// enumHeaders: EXHAUSTIVE over a small alphabet — every `headers` option list and every in-file header list of length
+// <= 2 over the names {X-A, x-a, Host} (13 x 13 lists) in every file syntax; ssl / keep-alive / gun vary with the index.
+func enumHeaders() []string {
+	names := []string{"X-A", "x-a", "Host"}
+	var lists [][]string
+	lists = append(lists, nil)
+	for _, a := range names {
+		lists = append(lists, []string{a})
+	}
+	for _, a := range names {
+		for _, b := range names {
+			lists = append(lists, []string{a, b})
+		}
+	}
+	var out []string
+	i := 0
+	for _, f := range []string{"uri", "uripost", "jsonline", "jsonarr", "raw"} {
+		for _, cl := range lists {
+			for _, fl := range lists {
+				i++
+				c := caseIn{format: f, ssl: i%3 == 0, ka: i%2 == 0, inst: 1 + i%2, tgt: "127.0.0.1", passes: 1,
+					gun: []string{"http", "http", "connect", "http2"}[i%4], rsp: "2", mode: "seq"}
+				if c.gun == "http2" {
+					c.ssl = true
+				}
+				c.srv = map[bool]string{true: "tls", false: "plain"}[c.ssl]
+				for j, n := range cl {
+					v := "conf" + strconv.Itoa(j)
+					if n == "Host" {
+						v += ".example.org"
+					}
+					c.conf = append(c.conf, "["+n+": "+v+"]")
+				}
+				var hs []hdrLine
+				seen := map[string]bool{}
+				for j, n := range fl {
+					ck := textproto.CanonicalMIMEHeaderKey(n)
+					if (f == "jsonline" || f == "jsonarr" || (f == "raw" && ck == "Host")) && seen[ck] {
+						continue // not expressible / order not defined
+					}
+					seen[ck] = true
+					v := "file" + strconv.Itoa(j)
+					if n == "Host" {
+						v += ".example.org"
+					}
+					hs = append(hs, hdrLine{n, v})
+				}
+				method, body := "GET", ""
+				if f != "uri" {
+					method, body = "POST", "b"
+				}
+				c.ents = []entry{{method: method, uri: "/e", body: body, hdrs: hs, minor: 1}, {method: method, uri: "/f", body: body, minor: i % 2}}
+				out = append(out, encodeCase(c))
+			}
+		}
+	}
+	return out
+}
+
+// enumConns: EXHAUSTIVE small connection histories — `inst` guns, every schedule of `length` shots over them, every
+// subset of the shots asking `Connection: close`, keep-alive on/off (raw entries, HTTP/1.0 and 1.1 alternating).
+func enumConns(inst, length int) []string {
+	var out []string
+	total := 1
+	for i := 0; i < length; i++ {
+		total *= inst
+	}
+	for sc := 0; sc < total; sc++ {
+		for mask := 0; mask < 1<<length; mask++ {
+			for _, ka := range []bool{true, false} {
+				c := caseIn{format: "raw", ka: ka, inst: inst, tgt: "127.0.0.1", passes: 1, gun: "http", rsp: "700", mode: "seq", srv: "plain"}
+				x := sc
+				for j := 0; j < length; j++ {
+					c.sched = append(c.sched, x%inst)
+					x /= inst
+					e := entry{method: "GET", uri: "/" + strconv.Itoa(j), minor: (j + mask) % 2}
+					if mask&(1<<j) != 0 {
+						e.hdrs = []hdrLine{{"Connection", "close"}}
+					}
+					c.ents = append(c.ents, e)
+				}
+				out = append(out, encodeCase(c))
+			}
+		}
+	}
+	return out
+}
+
+// every k-th element, starting at off
+func sample(l []string, k, off int) []string {
+	var out []string
+	for i := off % k; i < len(l); i += k {
+		out = append(out, l[i])
+	}
+	return out
+}
+
 func c09Gen(r *rand.Rand, tier string) []string {
 	out := matrix()
-	n, nMal, nCanon := 700, 120, 300
+	n, nMal, nCanon := 2200, 300, 500
 	if tier == "thorough" {
-		n, nMal, nCanon = 12000, 2500, 6000
+		n, nMal, nCanon = 60000, 8000, 20000
+		out = append(out, enumHeaders()...)
+		out = append(out, enumConns(2, 4)...)
+		out = append(out, enumConns(3, 3)...)
+		out = append(out, enumConns(2, 5)...)
+	} else {
+		off := r.Intn(1 << 20)
+		out = append(out, sample(enumHeaders(), 6, off)...)
+		out = append(out, sample(enumConns(2, 4), 8, off)...)
+		out = append(out, sample(enumConns(3, 3), 8, off)...)
 	}
 	for i := 0; i < n; i++ {
 		out = append(out, encodeCase(genCase(r, false)))
@@ -843,7 +1263,7 @@ func c09Class(in, obs string) string {
 	}
 	ka := map[bool]string{true: "ka", false: "noka"}[c.ka]
 	ssl := map[bool]string{true: "https", false: "http"}[c.ssl]
-	return strings.Join([]string{c.format, collide, ssl, ka}, "/")
+	return strings.Join([]string{c.gun, c.format, collide, ssl, ka, c.mode}, "/")
 }
 
 func main() {
@@ -854,10 +1274,14 @@ func main() {
 		Class:   c09Class,
 		Workers: 8,
 		Timeout: 30 * time.Second,
-		Rule: "fixed matrix (5 file syntaxes x header-collision patterns x ssl x keep-alive) plus PRNG cases: 1-4 entries " +
-			"(methods, origin/absolute URIs naming decoy hosts, text/binary/large bodies, 0-3 in-file headers) x 0-4 `headers` option " +
+		Rule: "fixed matrix (5 file syntaxes x header-collision patterns x ssl x keep-alive x http/http2/connect gun) plus exhaustive small " +
+			"enumerations (all option/in-file header lists of length <=2 over {X-A,x-a,Host} per syntax; all schedules x close-subsets of " +
+			"short connection histories; sampled in quick, complete in thorough) plus PRNG cases: 1-4 entries " +
+			"(methods, origin/absolute/network-path URIs naming decoy hosts, text/binary/large bodies, raw HTTP/1.0 and 1.1, 0-3 in-file headers " +
+			"incl. Connection) x 0-4 `headers` option " +
 			"strings chosen to collide with in-file names (same name, other case, duplicates, Host) x ssl x plain/TLS target " +
-			"(incl. mismatches) x keep-alive x 1-3 per-instance guns x target 127.0.0.1/localhost/::1 x passes 1-2; a malformed " +
+			"(incl. mismatches) x keep-alive x 1-4 per-instance guns of the http, http2 or connect plugin x gun schedule x sequential/parallel " +
+			"shooting x response body 0-70000 bytes or a redirect to a decoy x preload x target 127.0.0.1/localhost/::1 x passes 1-2; a malformed " +
 			"stream (bad option strings, header names with spaces/non-token bytes, control bytes in values); plus direct " +
 			"CanonicalMIMEHeaderKey comparisons. Driven through config.DecodeAndValidate -> registered provider + registered http gun " +
 			"against an in-process recording server. non-trivial = at least one request arrived (or a canon comparison); " +
